@@ -50,6 +50,7 @@ type Contract struct {
 	Pure     bool
 	NoSafety bool
 	Lets     []Clause // named abbreviations: label = expr (macro)
+	Splits   []Clause // case-split conditions (entry state) applied to every postcondition
 	File     string
 	Line     int
 }
@@ -63,6 +64,7 @@ type ContractSet struct {
 	ByFunc  map[string]*Contract // key pkg.Func
 	Order   []*Contract
 	Pools   []PoolSpec
+	Sealed  []string
 	Types   map[string][]Clause // type invariants by type name
 	Macros  map[string]Macro
 	Externs map[string]*Contract // stubs for external functions by full name
@@ -129,6 +131,9 @@ func ParseContracts(files map[string]string) (*ContractSet, error) {
 			}
 			word, rest := splitWord(body)
 			switch word {
+			case "sealed":
+				cs.Sealed = append(cs.Sealed, strings.Fields(rest)...)
+				continue
 			case "pool":
 				// pool <global>: <type>
 				g, t, ok := strings.Cut(rest, ":")
@@ -190,6 +195,12 @@ func ParseContracts(files map[string]string) (*ContractSet, error) {
 					k, v, _ := strings.Cut(kv, "=")
 					cur.Opts[k] = v
 				}
+			case "split":
+				for _, m := range splitTop(rest, ',') {
+					if m = strings.TrimSpace(m); m != "" {
+						cur.Splits = append(cur.Splits, Clause{Label: "split", Expr: m, Line: ln, File: file})
+					}
+				}
 			case "trusted":
 				cur.Trusted = true
 			case "inline":
@@ -207,7 +218,8 @@ func ParseContracts(files map[string]string) (*ContractSet, error) {
 				cur.Ensures = append(cur.Ensures, Clause{lab, ex, ln, file})
 				last = &cur.Ensures[len(cur.Ensures)-1].Expr
 			case "let":
-				lab, ex := cutLabel(rest)
+				lab, ex, _ := strings.Cut(rest, "=")
+				lab, ex = strings.TrimSpace(lab), strings.TrimSpace(ex)
 				cur.Lets = append(cur.Lets, Clause{lab, ex, ln, file})
 				last = &cur.Lets[len(cur.Lets)-1].Expr
 			case "modifies":
